@@ -46,6 +46,10 @@ def run(ctx, log):
     for fl_ in ["1.14", "1.36", "1.39", "1.57", "1.118", "0.1", "2.5", "3.14", "5.55", "1.00", "0.3", "7.07", "12.34", "99.99", "100.01", "4.35", "0.57", "1.005", "8.41", "2.675"] + ["%d.%02d" % (rng.randint(0, 300), rng.randint(0, 99)) for _ in range(150 if ctx.quick else 3000)]:
         trees.append([("expr", ("float", fl_))])
         trees.append([("expr", ("infix", "+", ("float", fl_), ("float", fl_)))])
+    for z_ in [0, 1, 9, 10, 255, 256, 65535, 65536, 2 ** 31 - 1, 2 ** 31, 2 ** 32, 2 ** 53, 2 ** 53 + 1, 2 ** 59, 2 ** 60 - 2, 2 ** 60 - 1]:
+        trees.append([("expr", ("int", z_))])
+        trees.append([("expr", ("infix", "-", ("int", z_), ("int", z_)))])
+        trees.append([("let", "g", ("int", z_)), ("expr", ("prefix", "-", ("id", "g")))])
     fnl = ("fn", "dubbel", ["x"], [("expr", ("infix", "*", ("id", "x"), ("int", 2)))])
     anon = ("fn", "", ["x"], [("expr", ("id", "x"))])
     for callee in (fnl, anon):
